@@ -214,13 +214,13 @@ package graphsync
 //@   ensures [forget] last(requestIDToChannelIDMap.deleteRefs, $0 == c.t.requestIDToChannelID && $1 == c.channelID) && calls(requestIDToChannelIDMap.deleteRefs) == 1
 //@   ensures [store-lifetime] calls(GraphExchange.UnregisterPersistenceOption) == (ret(dtChannel.hasStore, 0) ? 1 : 0) &&
 //@       all(GraphExchange.UnregisterPersistenceOption, $1 == "data-transfer-" + c.channelID.String())
-//@ func (*graphsync.dtChannel).hasStore {C16,C20}
+//@ func (*graphsync.dtChannel).hasStore {C16,C20,C09}
 //@   acquires {C20} dtChannel.optionsLk
 //@   reads
 //@ func (*graphsync.dtChannel).maxLinks {C20}
 //@   acquires {C20} dtChannel.optionsLk
 //@   reads
-//@ func (*graphsync.dtChannel).useStore {C16,C20}
+//@ func (*graphsync.dtChannel).useStore {C16,C20,C09}
 //@   acquires {C20} dtChannel.optionsLk
 //@   modifies c.storeRegistered
 //@   ensures [same-name] all(GraphExchange.RegisterPersistenceOption, $1 == "data-transfer-" + c.channelID.String()) && calls(GraphExchange.RegisterPersistenceOption) == 1
